@@ -173,7 +173,10 @@ func (p *Processor) ChargingDataCreate(
 
 	consumerId := chargingData.NfConsumerIdentification.NFName
 	if !chargingData.OneTimeEvent {
-		chargingSessionId = ueId + consumerId + "-" + strconv.FormatUint(self.LocalRecordSequenceNumber, 10)
+		self.Lock()
+		recordNumber := self.LocalRecordSequenceNumber
+		self.Unlock()
+		chargingSessionId = ueId + consumerId + "-" + strconv.FormatUint(recordNumber, 10)
 	}
 	cdr, err := p.OpenCDR(chargingData, ue, chargingSessionId, false)
 	if err != nil {
